@@ -511,6 +511,7 @@ func (h *backendHandler) decodeRequest(obs *BackendObs) {
 		}
 		if md != nil && !md.IsStreamingClient() && obs.ReadErr == "" && len(rest) == 0 && len(frames) != 1 {
 			obs.problem("non-client-streaming method received %d request frames", len(frames))
+			obs.Undecodable = append(obs.Undecodable, fmt.Sprintf("unary request with %d messages", len(frames)))
 		}
 	case obs.Protocol == ProtoConnect && obs.Method == http.MethodGet:
 		if len(obs.Body) > 0 {
@@ -593,6 +594,8 @@ type renderedResp struct {
 	prefixes []int // start offsets of frames
 	trailers [][2]string
 	nmsgs    int
+	comp     string
+	payloads [][]byte
 }
 
 func (h *backendHandler) renderResponse(st *rpcState, obs *BackendObs, override *ErrSpec, only []MsgSpec) *renderedResp {
@@ -623,6 +626,7 @@ func (h *backendHandler) renderResponse(st *rpcState, obs *BackendObs, override 
 			comp = "" // a conforming backend only uses what the caller offered
 		}
 	}
+	rr.comp = comp
 	encode := func(ms MsgSpec) []byte {
 		if ms.RawPayload != nil {
 			return ms.RawPayload
@@ -655,6 +659,7 @@ func (h *backendHandler) renderResponse(st *rpcState, obs *BackendObs, override 
 			if ms.Flags != nil {
 				fl = byte(*ms.Flags)
 			}
+			rr.payloads = append(rr.payloads, payload)
 			env := envelope(fl, payload)
 			if ms.LenDelta != 0 {
 				n := int64(len(payload)) + int64(ms.LenDelta)
@@ -789,6 +794,10 @@ func (h *backendHandler) renderResponse(st *rpcState, obs *BackendObs, override 
 				rr.body = refCompress(comp, rr.body)
 				rr.headers.Set("Content-Encoding", comp)
 			}
+			if comp != "" && msgs[0].RawPayload != nil {
+				rr.headers.Set("Content-Encoding", comp)
+			}
+			rr.payloads = append(rr.payloads, rr.body)
 		}
 	default: // REST
 		if errSpec != nil {
@@ -895,6 +904,9 @@ func (h *backendHandler) writeResponse(st *rpcState, obs *BackendObs, rw http.Re
 		body = body[:rp.CutAt]
 		cut = true
 	}
+	st.respLen = len(rr.body)
+	st.respComp = rr.comp
+	st.respPayloads = rr.payloads
 	h.writeBody(st, obs, rw, body, rr)
 	obs.SentMsgs = rr.nmsgs
 	if cut && !rp.CutPlusEnd {
@@ -902,10 +914,11 @@ func (h *backendHandler) writeResponse(st *rpcState, obs *BackendObs, rw http.Re
 		return
 	}
 	for _, kv := range rr.trailers {
+		// like connect-go and grpc-go, ask the writer for its header map at the time the trailers are set
 		if announce {
-			hd.Add(kv[0], kv[1])
+			rw.Header().Add(kv[0], kv[1])
 		} else {
-			hd.Add(http.TrailerPrefix+kv[0], kv[1])
+			rw.Header().Add(http.TrailerPrefix+kv[0], kv[1])
 		}
 	}
 	obs.Responded = true
